@@ -73,7 +73,7 @@ class JsonRPCNotification:
 
     method: str
     jsonrpc: str
-    params: Any
+    params: Any = None
 
 
 @attrs.define
@@ -85,7 +85,7 @@ class JsonRPCRequestMessage:
     id: Union[int, str]
     method: str
     jsonrpc: str
-    params: Any
+    params: Any = None
 
 
 @attrs.define
@@ -330,11 +330,20 @@ class JsonRPCProtocol:
 
         except ClassValidationError as exc:
             logger.error("Unable to deserialize message\n%s", traceback.format_exc())
-            raise JsonRpcInvalidParams() from exc
+            error = JsonRpcInvalidParams()
+            self._reject_request(data, error)
+            raise error from exc
 
         except Exception as exc:
             logger.error("Unable to deserialize message\n%s", traceback.format_exc())
-            raise JsonRpcInternalError() from exc
+            error = JsonRpcInternalError()
+            self._reject_request(data, error)
+            raise error from exc
+
+    def _reject_request(self, data, error: JsonRpcException):
+        """A request that cannot be deserialized still has to be answered."""
+        if "id" in data and "method" in data:
+            self._send_response(data["id"], error=error.to_response_error())
 
     def handle_message(self, message):
         """Delegates message to handlers depending on message type."""
